@@ -185,7 +185,10 @@ def check_sub(cell, case, ctx):
                      f"stores t; operands a={opcheck.fmt(a)} b={opcheck.fmt(b) if b else None}", op=op.name, variant=variant,
                      backend=backend)
             return
-        if not R.representable(k1[1], ref_cart, eps=0) or not R.representable(k0[1], ref_cart):
+        # theta / eta storage of a result that cancelled onto the z axis (rho below 1e-18 of the scale) cannot carry 40 digits
+        # of z even at 60-digit precision: not representable for the purposes of the comparison
+        eps_axis = (mpf("1e-18") * R.scale_of(a, b, ref_cart)) ** 2 if mp_ else 0
+        if not R.representable(k1[1], ref_cart, eps=eps_axis) or not R.representable(k0[1], ref_cart):
             ctx.exclude("result_not_representable")
             return
         if any(not obs.finite(x) for x in ref_cart):
